@@ -14,6 +14,9 @@ use std::str::FromStr;
 use vh::report::{Args, Reporter};
 
 const ALPHA: [char; 12] = ['a', 'Z', '0', '.', '/', '-', '_', '+', ' ', '\n', '\0', 'é'];
+/// ASCII neighbours of the letter/digit ranges ('@' 'A'..'Z' '[' ... '`' 'a'..'z' '{', '9' ':'):
+/// sloppy ranges such as `A-z` or `0-:` show up only on these
+const BOUNDARY: [char; 6] = ['@', '[', '^', '`', '{', ':'];
 const RESERVED: [&str; 6] = ["build", "launch", "store", "app", "config", "sbom"];
 
 fn strings_upto(alpha: &[char], n: usize) -> Vec<String> {
@@ -144,6 +147,9 @@ pub fn run(args: &Args) {
     let macro_len = if args.thorough() { 4 } else { 3 };
     let mut strings = strings_upto(&ALPHA, max_len);
     strings.extend(reserved_variants());
+    // class-boundary characters: all strings of length <= 3 over the full 18-symbol alphabet
+    let wide: Vec<char> = ALPHA.iter().chain(BOUNDARY.iter()).copied().collect();
+    strings.extend(strings_upto(&wide, if args.thorough() { 4 } else { 3 }));
     strings.sort();
     strings.dedup();
     let mut total = 0u64;
@@ -252,6 +258,7 @@ pub fn run(args: &Args) {
     if let Some(p) = args.rest.first() {
         let mut short = strings_upto(&ALPHA, macro_len);
         short.extend(reserved_variants());
+        short.extend(strings_upto(&wide, 2));
         short.sort();
         short.dedup();
         let mut exp = serde_json::Map::new();
@@ -268,7 +275,7 @@ pub fn run(args: &Args) {
     rep.cov("accepted", accepted);
     rep.cov("distinct_nontrivial", accepted);
     rep.cov("roundtrip_grid", grid_n);
-    rep.cov("rule", "identifiers: every string of length <= L over {a Z 0 . / - _ + space newline NUL é} plus the six reserved words with one character appended/prepended/removed and upper-cased, for layer names, process types, buildpack ids and exec.d keys, through str::parse and through TOML deserialisation, against hand-written predicates; versions/API: every string of length <= 7 (8) over {0 1 9 . + - space} plus all pairs/triples over 14 components (leading zeros, signs, spaces, empty, underscore, Arabic-Indic digit, u64::MAX, u64::MAX+1); display/parse round trips on an 8^3 boundary grid. distinct_nontrivial = accepted strings (each judged on rendering as the identical string)");
+    rep.cov("rule", "identifiers: every string of length <= L over {a Z 0 . / - _ + space newline NUL é} (and length <= 3/4 over that alphabet extended with the ASCII class-boundary characters @ [ ^ ` { :) plus the six reserved words with one character appended/prepended/removed and upper-cased, for layer names, process types, buildpack ids and exec.d keys, through str::parse and through TOML deserialisation, against hand-written predicates; versions/API: every string of length <= 7 (8) over {0 1 9 . + - space} plus all pairs/triples over 14 components (leading zeros, signs, spaces, empty, underscore, Arabic-Indic digit, u64::MAX, u64::MAX+1); display/parse round trips on an 8^3 boundary grid. distinct_nontrivial = accepted strings (each judged on rendering as the identical string)");
     rep.cov("bound", json!({"identifier_length": max_len, "version_length": if args.thorough() {8} else {7}}));
     rep.cov("exhaustive", true);
     rep.sample(json!({"type": "buildpack_id", "string": "sbom/", "reference": true}));
